@@ -26,6 +26,9 @@ ANGLE_FIELDS = {"latitude", "longitude", "sun_alt_cut", "moon_alt_cut", "moon_mi
 ATOL = 4 * 2.0**-52
 
 
+KF_NONE = "toml:none-section"
+
+
 def walk(a, b, path=""):
     """Yield (path, va, vb, field_name) for every leaf of two pydantic models of the same shape."""
     from pydantic import BaseModel
@@ -195,6 +198,44 @@ def run(ctx):
             ctx.distinct.add(("rt", repr(c.model_dump())[:4000]))
             if i < 2:
                 ctx.sample({"roundtrip_config": c.model_dump()})
+        # ---------------- Optional sections set to None (valid configurations) --------------------
+        for path in ("detector.sun_moon", "detector.optical", "detector.radio", "simulation.ionosphere", "simulation.target"):
+            sec, fld = path.split(".")
+            for variant in range(2):
+                c = NssConfig()
+                if variant:
+                    c.simulation.spectrum = Simulation.PowerSpectrum(index=2.0, lower_bound=7.0, upper_bound=11.0)
+                setattr(getattr(c, sec), fld, None)
+                try:
+                    c = NssConfig(**raw(c))
+                except Exception:
+                    ctx.count("generated-invalid")
+                    continue
+                ctx.count("none-section")
+                p = os.path.join(work, "none.toml")
+                wit = {"section": path, "variant": variant}
+                try:
+                    create_toml(p, c)
+                except TypeError as e:
+                    if "NoneType" in str(e) and "TOML serializable" in str(e):
+                        ctx.violation(KF_NONE, f"a valid configuration with {path} = None cannot be written: create_toml raises TypeError: {e}", wit)
+                    else:
+                        ctx.exception("roundtrip", f"create_toml of a valid configuration with {path} = None raised", e, wit)
+                    continue
+                except Exception as e:
+                    ctx.exception("roundtrip", f"create_toml of a valid configuration with {path} = None raised", e, wit)
+                    continue
+                try:
+                    c2 = config_from_toml(p)
+                except Exception as e:
+                    ctx.exception("roundtrip", f"reading back a configuration with {path} = None raised", e, wit)
+                    continue
+                back = getattr(getattr(c2, sec), fld)
+                if back is not None:
+                    ctx.violation("roundtrip", f"{path} = None was read back as {back!r}", wit)
+                diffs = [(pth, va, vb) for pth, va, vb, nm in walk(c, c2) if not leaf_equal(va, vb, nm)]
+                if diffs:
+                    ctx.violation("roundtrip", f"configuration with {path} = None: field {diffs[0][0]}: {diffs[0][1]!r} was read back as {diffs[0][2]!r}", wit)
         # ---------------- units ------------------------------------------------------------------
         fields = unit_fields() + [(Detector.Radio, "low_frequency", "MHz"), (Detector.Radio, "high_frequency", "MHz")]
         vals = [0.0, 1.0, 2.5, 1e-9, 12345.678, 0.30000000000000004, -3.25]
@@ -365,7 +406,7 @@ def run(ctx):
                 ctx.violation("cli", f"create-config {' '.join(argv)}: field {diffs[0][0]} is {diffs[0][2]!r}, expected {diffs[0][1]!r}", {"argv": argv})
     finally:
         shutil.rmtree(work, ignore_errors=True)
-    for m in ("roundtrip", "units", "units-rejected", "units-bare", "band", "month", "month-rejected", "cli"):
+    for m in ("roundtrip", "none-section", "units", "units-rejected", "units-bare", "band", "month", "month-rejected", "cli"):
         ctx.require(m)
     return ctx.finish(
         rule="round trip: seeded configurations over every spectrum/cloud variant with floats from {0, -0, denormal, 1e+-300, max double, 0.1+0.2, random over 17 decades}, 26 hostile strings (quotes, backslashes, control characters, CR LF / lone CR / leading and double newlines, non-ASCII, TOML syntax look-alikes, empty) and boundary integers; units: 15 unit-bearing fields x 3-12 spellings x values x {string, Quantity}, incompatible units, bare numbers; 14 band specifications x 3 routes; 120 month spellings + 12 invalid; 13 CLI invocations; a case is a distinct configuration / (field, spelling, value, form) / specification",
